@@ -190,6 +190,10 @@ def check_history(case):
             parent = v._parent_module if is_mod else v._parent_bundle
             if parent is not m:
                 return ("post.parent", f"{n} does not report the module as parent at {where}")
+        # get() looks in the HDL namespace only: the object's own attributes, methods and views are not in it
+        for n in banned + ("name", "bundle_ports", "roles", "_initialized", "_elaborated", "__class__", "__dict__"):
+            if n not in spec and m.get(n) is not None:
+                return ("post.get", f"get({n!r}) returns {type(m.get(n)).__name__} although nothing was added under that name at {where}")
         for n in NAMES + ADD_ONLY_NAMES:
             if n not in spec and m.get(n) is not None:
                 return ("post.get", f"get({n}) returns an object for an absent name at {where}")
